@@ -349,6 +349,15 @@ func surgery(text string, m map[string]json.RawMessage) []variant {
 			order = append(order, nk)
 			out = append(out, variant{build(mm, order, ""), "rename:" + k})
 		}
+		// duplication under a differently-cased name (the struct decoder matches names
+		// case-insensitively, the required-field map does not) with conflicting values
+		for _, nk := range []string{strings.ToUpper(k), strings.ToUpper(k[:1]) + k[1:]} {
+			nkb, _ := json.Marshal(nk)
+			for _, rv := range []string{"true", "false", "1", "0", "2", "7", `"x"`, "null"} {
+				out = append(out, variant{build(m, keys, string(nkb)+":"+rv), "dup-case-after:" + k})
+				out = append(out, variant{"{" + string(nkb) + ":" + rv + "," + build(m, keys, "")[1:], "dup-case-before:" + k})
+			}
+		}
 		// duplication with the same and with a conflicting value
 		kb, _ := json.Marshal(k)
 		out = append(out, variant{build(m, keys, string(kb)+":"+string(m[k])), "dup-same:" + k})
